@@ -26,6 +26,8 @@ func main() {
 		"S: worlds of 2-5 NodePools (weights with ties, template labels/zones/capacity types/taints incl. PreferNoSchedule/limits/minValues; not-ready, static, deleting pools; " +
 		"1-4 instance types per pool incl. reserved offerings with capacity 0/1), one pod (feasible skeleton, at most two perturbations; half with preferred / several required " +
 		"node-affinity terms) or a batch of 2-5 pods, Solve at 1, 4 and 16 workers, then TruncateInstanceTypes + ToNodeClaim. " +
+		"P, T and S additionally re-run on the SAME *InstanceType objects after a first use (Allocatable/AllocatableOfferingsList/fits precompute) and an in-place change of " +
+		"Offering.Available (cheapest compatible offering of about half of the types becomes unavailable, some unavailable offerings come back): ranking and truncation are judged by the CURRENT availability. " +
 		"non-trivial = the sort moved an element / the cut drops a type / the pod got a pool that is not first in the order or was deferred; distinct by full input"
 	c.Meta.Extra = map[string]interface{}{"assumptions": []string{
 		"within one addToNewNodeClaim call the evaluation outcome of a template for the pod (NewNodeClaim + CanAdd) is a function of the template only: it reads, and does not write, scheduler state, so it does not depend on the interleaving of the workers (writes to idx/newNodeClaim happen under the mutex and are modelled)",
